@@ -21,6 +21,31 @@ def main(arg):
     n, b, w, backend = sc['n'], sc['b'], sc['w'], sc['backend']
     catch = {'none': None, 'true': True, 'user': UserExc}[sc.get('catch', 'none')]
     base = ld.new(list(range(n)))
+    if sc.get('diskcache'):
+        # a disk cache (default clear=True) below the process-pool prefetch:
+        # the workers get pickled copies of it; two epochs, then the state of
+        # the directory while the dataset is alive and after its release
+        import gc
+        import tempfile
+        d = os.path.join(tempfile.mkdtemp(prefix='verif_dc_'), 'cache')
+        cached = base.map(fn).diskcache(d)
+        ds = cached.prefetch(w, b, backend)
+        out = {}
+        for name in ('first', 'second'):
+            try:
+                got = list(ds)
+                out[name] = {'delivered': got, 'outcome': 'exhausted', 'extra': None}
+            except BaseException as e:
+                out[name] = {'delivered': [], 'outcome': 'raised',
+                             'extra': [type(e).__name__, repr(e.args)[:200]]}
+        out['dir_while_alive'] = os.path.isdir(d)
+        out['direct'] = [cached[i] for i in range(n)] if out['dir_while_alive'] else None
+        del ds, cached
+        gc.collect()
+        out['dir_after_release'] = os.path.isdir(d)
+        sys.stdout.write('RESULT ' + json.dumps(out, default=repr) + '\n')
+        sys.stdout.flush()
+        return
     if sc['entry'] == 'pft':
         ds = base.map(fn).prefetch(w, b, backend, catch_filter_exception=catch)
     else:
